@@ -14,6 +14,8 @@ def run_stream(ctx, r, idx):
 	specs = [{"base_port": 5700, "name": "A"}, {"base_port": 6700, "name": "B"}]
 	if three:
 		specs.append({"base_port": 7700, "name": "C"})
+	elif r.random() < 0.3:
+		specs.append({"base_port": 6700, "child_of": 1, "child_idx": 1, "name": "B/1"})   # a child: its loss simulation is its own
 	bench = radio.Bench(r.getrandbits(30), specs)
 	n = len(specs)
 	log = []
@@ -32,7 +34,10 @@ def run_stream(ctx, r, idx):
 	for i in range(n):
 		rx, tx = (890000, 935000) if i == 0 else (935000, 890000)
 		if not (cmd(i, "RXTUNE %d" % rx) and cmd(i, "TXTUNE %d" % tx) and
-			cmd(i, "SETFORMAT %d" % r.choice((0, 1))) and cmd(i, "POWERON")):
+			cmd(i, "SETFORMAT %d" % r.choice((0, 1)))):
+			return
+	for i in range(n):
+		if not bench.models[i].running and not cmd(i, "POWERON"):
 			return
 	ctx.count("version_combo:%s" % "/".join(str(m.ver) for m in bench.models))
 	nb = r.randint(50, 400) if ctx.tier == "thorough" else r.randint(50, 200)
@@ -45,7 +50,7 @@ def run_stream(ctx, r, idx):
 			i = r.randrange(n)
 			muted_any = any(m.muted for m in bench.models)
 			if not (overlap_free and muted_any):
-				amount = r.choice((0, 1, 2, 3, 5, 10, 50)) if r.random() < .8 else r.randint(0, 50)
+				amount = r.choice((0, 1, 2, 3, 5, 10, 50, 255, 256, 300)) if r.random() < .8 else r.randint(0, 50)
 				if r.random() < 0.5:
 					c = "FAKE_DROP %d" % amount
 				else:
